@@ -1,6 +1,6 @@
 """Per-property configuration of ./check (level, generation rule, what the correspondence is)."""
 
-HOOK_COMMITS = ["f5b1d5244facd014c279423c479633cc3b50fced", "3268006", "35263043bf6b5f4fd4fd4db82c5d5667fb3b1627", "271a2157aed3e04ac2f8ae3450ad240ff780209e"]
+HOOK_COMMITS = ["f5b1d5244facd014c279423c479633cc3b50fced", "3268006", "35263043bf6b5f4fd4fd4db82c5d5667fb3b1627", "271a2157aed3e04ac2f8ae3450ad240ff780209e", "dd59e1336b5a0e5e9904133fd68242d941c5cae1"]
 
 PROPS = {
     "C01": {
@@ -36,6 +36,88 @@ PROPS = {
                 "evalInd_yes/no, evalCo_yes/no, evalGoal_sound. Inconclusive (fuel, growing types) cases are counted, never alarms. Solver limits: defaults only so far.",
         "correspondence": "real Solver::solve (SLG, recursive) vs Sem.evalGoal on horn(program)",
         "explanation": "translation validation of solver answers by a certified checker",
+    },
+    "C16": {
+        "level": "proof",
+        "rule": "every case carries its inference table as a script (new universes 0-6; 0-9 variables of sorts general/integer/float type, "
+                "lifetime, const, in 1-3 universes; 1/3 of them unified into classes via the real relate; 1/3 of the classes bound to values "
+                "that mention later classes, so bound values are folded through) and a value of 1-4 generic args over all constructors, "
+                "placeholders of all three kinds in universes 0-8 with gaps, repeated variables, variables of unified classes, bound "
+                "variables; streams: canon (+ canon-ty) with two renamed twins each (consistent: bijection on classes keeping sort and "
+                "universe, any member of the image class; inconsistent: merge two classes / split one occurrence off / move a class to "
+                "another universe / change the kind annotation), ucanon (outputs of the canonicalizer and generated canonical values), "
+                "map-from-canonical with out-of-range canonical universes, instantiate-canon (instantiate then canonicalize; well-numbered "
+                "and arbitrary canonical values), invert (2/3 with all variables bound), instantiate-ex/-univ; 1/15 malformed (free bound "
+                "variables, kind-inconsistent uses, empty/unsorted universe maps). Non-trivial = the output has a canonical variable / "
+                "panicked / more than one universe / any invert case; distinct = distinct request lines",
+        "technique": "Lean 4 theorems about executable models of Canonicalizer, fresh_subst/instantiate_canonical, u_canonicalize/UniverseMap, "
+                     "invert (a generic state-threading fold, forward simulation and fusion lemmas over the mutual syntax; fuel = number of "
+                     "table variables for the recursion through bound values) + exact differential correspondence on real InferenceTables + "
+                     "the property's sentences evaluated on the implementation (renamed twins, round trips, order of universes)",
+        "claim": "Proved for all tables, values and budgets (unbounded): canon_first_occurrence (free_vars = first occurrence of each distinct "
+                 "unbound root met by the traversal, in order; no duplicates; binder i = kind of that occurrence x universe of root i), "
+                 "canon_numbering (the canonical value is the input with every unbound variable replaced by the position of its root in "
+                 "free_vars and every bound variable by its value numbered the same way), canon_closed (no inference variable and only ^0.i "
+                 "with i < #binders in the canonical value; needed by C28), canon_roundtrip (canonicalize(instantiate c) = c for every "
+                 "WellNumbered c, all kinds incl. integer/float/const binders, any universes), canon_eq_of_renaming (+ _same_table: the IF "
+                 "direction of 'equal canonical forms iff renaming', for two (table,value) pairs related by a root-bijective, "
+                 "universe-preserving renaming, bound variables included), invert_none_iff (invert refuses iff the traversal meets an unbound "
+                 "variable), invert_some_spec, invert_consistent + invOk_var (the result is the canonical value with every type/lifetime "
+                 "placeholder replaced, consistently at all occurrences, by one variable per placeholder; these variables are fresh, pairwise "
+                 "distinct, unbound roots in the placeholder's universe; const placeholders stay, as in the code), ucanon_monotone (map "
+                 "strictly increasing, U0 first, every present universe mapped, compression strictly monotone and order-reflecting), "
+                 "ucanon_roundtrip (map_from_canonical(u_canonicalize c) = c for type, lifetime AND const placeholders, on the code as "
+                 "repaired for F8; legacy_ucanon_roundtrip_refuted proves the defect on the pre-repair folder), from_canonical_fresh (total, "
+                 "strictly increasing on all canonical universes, out-of-range ones land above every original one). Every model function is "
+                 "compared exactly with the real one on every run (canonical value, binders, free_vars roots, universe maps, inverted "
+                 "values) and the property is evaluated on the implementation: consistent twins must give equal forms, inconsistent ones "
+                 "different forms, canonicalize(instantiate(.)) of every canonicalizer output and of every well-numbered input must give it "
+                 "back, u_canonicalize must be order-preserving and undone by map_from_canonical, invert must refuse exactly on reachable "
+                 "unbound variables and replace placeholders consistently by fresh variables of their universe.",
+        "note": "F8 (UMapFromCanonical without fold_free_placeholder_const: const placeholders keep the compressed universe) reproduced by the "
+                "oracle and by the model comparison on the unchanged code, repaired in /repo (commit f919731, status fixed, regression input in "
+                "corpus/C16). NOT YET THEOREMS (checked differentially only): the converse of canon_eq_of_renaming (equal forms => renaming; "
+                "inconsistent twins), 'every output of canonicalize is WellNumbered' (one machine-checked example + independent walk on every "
+                "real well-sorted output; ill-sorted inputs - one variable used at two sorts - are counted and excluded from the "
+                "oracles), sufficiency of fuel = #variables on acyclic "
+                "tables (argued in Canon.lean), the union-find invariants of Infer.lean (theorems assume Table.Aligned where fresh variables "
+                "are created; Renaming states its requirements on roots directly). Constants: Canonicalizer/Inverter/UMap* receive the type "
+                "of a variable/placeholder constant unfolded and copy it; closedAt does not inspect those types and VarKind.const keeps only "
+                "a scalar code (standing assumption: constants have closed scalar types). max_universe of the Canonicalizer is computed and "
+                "dropped by the Rust code, so it is modelled but not compared. bind steps and unify-vv on a bound variable use the "
+                "cfg(chalk_verif) hooks (plain ena unify_var_value/unify_var_var: the real relate would generalize the value and create "
+                "further variables); cyclic tables are not generated (the real code overflows the stack, the model reports a panic). "
+                "Trusted: Lean kernel, model fidelity (differential only), harness and its independent walkers.",
+        "correspondence": "Table.canonicalize/canonicalizeTy, instantiateCanonical, instantiateBinders*, uCanonicalize, mapFromCanonical, "
+                          "Table.invert (lean/ChalkModel/{SFold,Canon,UCanon,Invert}.lean) vs chalk-solve infer::{canonicalize, instantiate, "
+                          "ucanonicalize, invert} on a real InferenceTable<ChalkIr>",
+    },
+    "C04": {
+        "level": "translation_validation",
+        "rule": "every `goal { .. }` of every `program { .. }` block of /repo/tests/test/*.rs (extracted at run time, ~900 goals: associated types, auto traits, "
+                "built-ins, custom clauses, lifetimes, negation, subtyping ...) plus 150 generated Horn-fragment programs x 6 goals (ground and with unknowns); "
+                "both solvers on fresh instances in child-process shards; the pair of answers is judged by Compat.compatible after a generic first-order "
+                "encoding of substitutions (lifetimes erased: region constraints are not compared); non-trivial = at least one solver found a solution",
+        "technique": "certified comparator: Lean 4 theorem compatible_of_contracts (any solution set) + evaluation of the comparator on every pair of real answers",
+        "claim": "compatible_of_contracts: if both answers meet C01's contract for the same (arbitrary) solution set then the comparator accepts; so every rejected pair "
+                 "certifies a contract violation by one solver, with no reference semantics. The comparator is run on the whole test-suite corpus and generated programs.",
+        "note": "Trusted: Lean kernel, the generic encoding in c04.rs, harness. Skipped (counted): recursive solver on coinductive/auto goals with unknowns (F12, process abort), "
+                "SLG negative-cycle panics and recursive overflow panics (documented behaviours). A crash of a shard is reported with the case in flight and the shard re-run without it.",
+        "correspondence": "real SLG vs real recursive solver through Compat.compatible",
+        "explanation": "cross-validation of the two solvers by a certified comparator",
+    },
+    "C13": {
+        "level": "proof",
+        "rule": "100 generated Horn-fragment programs (no growing-type impls: searches stay within the size limits) x 5 goals (2 closed, 3 with unknowns) x 6 (thorough 24) "
+                "random permutations of the item list and of every where-clause list, both solvers, fresh instances, in child-process shards; answers compared "
+                "through their name-based rendering; non-trivial = every (goal, solver) family of permutations; plus the aggregation-layer witness lines for the model",
+        "technique": "Lean 4 theorems (meaning is invariant under permutation of clauses/conditions; order dependence of SLG guidance refuted on the exact aggregation model) + differential runs under permutation",
+        "claim": "sol_perm_invariant/sol_perm_clauses: the declarative solution set cannot depend on declaration order, for every program and goal. guidance_order_dependent: the full "
+                 "statement is false at the SLG aggregation layer (exact model, witness F2); guidance_sound_any_order: any order gives guidance that generalises all merged answers. "
+                 "On the real code every permutation family must give identical answers; differences are reported with the permuted program as replay.",
+        "note": "Trusted: Lean kernel, Aggregate model fidelity (C17 correspondence), harness. Known findings (open): F2 slg_antiunify_order, F13 slg_trivial_answer_order "
+                "(found by this check). The recursive solver showed no order dependence in the explored programs.",
+        "correspondence": "real solvers under permutation; mayInvalidate/mergeIntoGuidance witness lines vs chalk-engine",
     },
     "C17": {
         "level": "proof",
